@@ -898,8 +898,13 @@ def plan_c19(run, prop, tier):
     s = vlib.seed()
     for (ca, cb, na, nb) in ([(3, 5, 1, 2)] if tier == "quick" else [(3, 5, 1, 2), (3, 4, 2, 1), (2, 4, 2, 2)]):
         r = vlib.model_check(run, "MC_Indep", f"SPECIFICATION Spec\nCONSTANTS CapA = {ca} CapB = {cb} NA = {na} NB = {nb} Labels = {{\"a\", \"b\"}} "
-                             "Vals = {\"x\"}\nINVARIANT SameAnswers\nCHECK_DEADLOCK FALSE\n", timeout=3000)
-        acc.add_e1(f"MC_Indep[cap {ca} vs {cb}, N {na} vs {nb}]: SameAnswers", r)
+                             "Vals = {\"x\"}\nINVARIANT SameAnswers\nINVARIANT SlicesSame\nINVARIANT MergesSame\nCHECK_DEADLOCK FALSE\n", timeout=3000)
+        acc.add_e1(f"MC_Indep[cap {ca} vs {cb}, N {na} vs {nb}]: SameAnswers, SlicesSame, MergesSame (slice from / merge of that slice at every vertex)", r)
+    rp = vlib.model_check(run, "MC_Indep", "SPECIFICATION Spec\nCONSTANTS CapA = 3 CapB = 5 NA = 1 NB = 2 Labels = {\"a\", \"b\"} Vals = {\"x\"}\n"
+                          "INVARIANT ProbeMergeCreatesNothing\nCHECK_DEADLOCK FALSE\n", must_hold=False, coverage=False)
+    if rp["ok"]:
+        raise ToolError("vacuity: no merge of a slice creates a vertex in MC_Indep")
+    acc.add_e1("MC_Indep[probe: no merge of a slice creates a vertex] (must be rejected)", rp, expect_error=True)
     steps = 1200 if tier == "quick" else 4000
     bases = [dict(profile="mixed", n=2, cap=12, steps=steps, seed=s * 100 + 51, window=10),
              dict(profile="twin", n=2, cap=12, steps=steps, seed=s * 100 + 52, window=9),
